@@ -462,9 +462,6 @@ structure TraitDesc where
   fam : Family
   parsable : Bool
   rows : List TraitRow
-  /-- position of the column in the declaration: the order in which `validateParsableTraits` walks
-  the traits (it runs BEFORE `sort.Sort(traits)`) -/
-  col : Nat := 0
   deriving Repr
 
 inductive GenFailure where
@@ -553,7 +550,7 @@ def genTraits (q : Quirks) (o : Options) (cols : List TraitCol) (vs : List Value
     else
       let ts := (List.range cols.length).zip cols |>.map (fun (j, c) =>
         ({ name := c.name, ty := c.ty, fam := c.fam, parsable := o.parsable.contains c.name,
-           rows := (rowsOf vs j c.ty).filter (keepRow q vs), col := j } : TraitDesc))
+           rows := (rowsOf vs j c.ty).filter (keepRow q vs) } : TraitDesc))
       if !parsableUnique first ts then .error .parsableNotUnique
       else .ok (sortTraits ts)
 
@@ -569,16 +566,17 @@ def TraitDesc.instanceOf (t : TraitDesc) (v : Value) : Option TraitRow :=
 
 /-- BEGIN repeat marking (`TraitInstance.repeatsParseKey`, set by `validateParsableTraits`).
 The instance `r` of parsable trait `t` is left out of its value's `case` in the `Parse` switch
-(`TraitDesc.InstanceOf` returns nil) when a parsable trait EARLIER IN COLUMN ORDER carries, on the
-same enum value, a constant with the same value text and an identical (default) type: it already is
-a key of that value. Both constants stand on the same definition line, so their texts are taken the
-same way (`rowText` with the same `isFirst`); the model identifies a constant by its dynamic type
-and scalar, and two constants of one type written with the same text are the same scalar, so the
-test is equality of `Dyn`. A constant of ANOTHER type with the same text (`Tint(0)` next to `0`) is
-a different key of the switch on an `any` and stays. The pinned rule (`repeatIgnoresType`) compared
-the texts only. -/
+(`TraitDesc.InstanceOf` returns nil) when a parsable trait EARLIER IN THE WALK carries, on the same
+enum value, an equal constant of an identical (default) type: it already is a key of that value.
+The walk is in NAME order: `processDuplicates`, which runs just before, ends with
+`sort.Sort(traits)` on the shared slice (trait names are distinct). The key is the constant as it is
+WRITTEN on the line (`keyType` / `keyValue`: the declared constant on the first line, the type and
+value of the expression on later lines) — in the model a constant IS its dynamic type and scalar, so
+the test is equality of `Dyn`. A constant of ANOTHER type with the same value (`Tint(0)` next to
+`0`) is a different key of the switch on an `any` and stays. The rule of /repo 7793249
+(`repeatIgnoresType`) compared the value TEXTS only and dropped such a key. -/
 def repeatsParseKey (q : Quirks) (ts : List TraitDesc) (first : Option Value) (t : TraitDesc) (r : TraitRow) : Bool :=
-  ts.any (fun t' => t'.parsable && decide (t'.col < t.col) && t'.rows.any (fun r' =>
+  ts.any (fun t' => t'.parsable && decide (t'.name < t.name) && t'.rows.any (fun r' =>
     r'.owner.name == r.owner.name &&
       (if q.repeatIgnoresType then
         let isFirst := first.any (fun f => f.name == r.owner.name)
